@@ -340,16 +340,29 @@ where
     S: BumpAllocatorSettings,
     NewS: BumpAllocatorSettings,
 {
+    ob_with_settings_allocated_w::<A, S, NewS>(k, hint, Some(|b| b.ensure_satisfies_settings_for_borrow_mut::<NewS>()), |b| b.ensure_satisfies_settings::<NewS>());
+}
+
+/// `which`: 0 = `Bump::with_settings` (`ensure_satisfies_settings`), 1 = `BumpScope::with_settings`
+/// (`ensure_scope_satisfies_settings`), 2 = `borrow_mut_with_settings` (`..._for_borrow_mut`)
+pub(crate) fn ob_with_settings_allocated_w<A, S, NewS>(k: usize, hint: usize, then_borrow_mut: Option<fn(&RawBump<A, S>)>, f: impl FnOnce(&RawBump<A, S>))
+where
+    A: crate::BaseAllocator<S::GuaranteedAllocated> + Default,
+    S: BumpAllocatorSettings,
+    NewS: BumpAllocatorSettings,
+{
     let mut a = Arena::<A, S>::build(k, hint);
     a.havoc();
     let ci = a.cur;
     let bytes = a.allocated_bytes();
-    a.bump.ensure_satisfies_settings::<NewS>();
+    f(&a.bump);
     let pos = a.snaps()[ci].pos;
     kani::assert(a.cur_index() == ci && al(pos, NewS::MIN_ALIGN) && al(pos, S::MIN_ALIGN), "C18.with_settings.position_aligned_to_new_min_align");
     kani::assert(a.allocated_bytes() >= bytes && a.allocated_bytes() - bytes < 16 && a.wf(), "C18.with_settings.data_intact");
-    a.bump.ensure_satisfies_settings_for_borrow_mut::<NewS>();
-    kani::assert(a.snaps()[ci].pos == pos, "C18.borrow_mut_with_settings.idempotent_when_aligned");
+    if let Some(g) = then_borrow_mut {
+        g(&a.bump);
+        kani::assert(a.snaps()[ci].pos == pos, "C18.borrow_mut_with_settings.idempotent_when_aligned");
+    }
     kani::cover!(pos != a.geo(ci).content_start, "moved-or-inside");
 }
 
@@ -367,6 +380,62 @@ where
     } else {
         kani::cover!(true, "must-not-reach: with_settings to GUARANTEED_ALLOCATED returned on an unallocated arena");
     }
+}
+
+/// `BumpScope::by_value` / `try_by_value` on an UNALLOCATED arena (C05): the chunk that gets created belongs to the
+/// ORIGINAL arena - it is the original's current chunk afterwards, allocations through the by-value scope are visible
+/// in the original, and dropping the original releases every chunk exactly once.
+pub(crate) fn ob_by_value_unallocated<S>(panicking: bool)
+where
+    S: BumpAllocatorSettings<GuaranteedAllocated = crate::settings::False>,
+{
+    log_reset();
+    let mut bump = RawBump::<LogAlloc, S>::new();
+    {
+        let scope: &mut BumpScope<'_, LogAlloc, S> = unsafe { crate::polyfill::transmute_mut(&mut bump) };
+        let owned = if panicking {
+            scope.by_value()
+        } else {
+            match scope.try_by_value() {
+                Ok(o) => o,
+                Err(_) => {
+                    kani::assert(false, "C07.by_value.not_refused_succeeds");
+                    return;
+                }
+            }
+        };
+        kani::assert(unsafe { N_GRANTS } == 1 && live_grants() == 1, "C05.by_value.exactly_one_chunk_created");
+        kani::assert(owned.raw.alloc::<AllocError>(Layout::new::<u32>()).is_ok(), "C12.by_value.first_chunk_serves_a_small_request");
+    }
+    let g = geo::<LogAlloc, S>(unsafe { GRANTS[0] });
+    kani::assert(!bump.chunk.get().is_unallocated() && bump.chunk.get().header().as_ptr() as usize == g.header, "C05.by_value.the_chunk_belongs_to_the_original");
+    kani::assert(bump.stats().allocated() >= 4, "C05.by_value.allocations_are_visible_in_the_original");
+    unsafe { bump.manually_drop() };
+    kani::assert(live_grants() == 0 && unsafe { DEALLOC_CALLS } == 1, "C05.by_value.every_chunk_released_when_the_owner_is_dropped");
+    kani::cover!(true, "by-value-on-unallocated");
+}
+
+/// by_value on an arena that already has chunks creates nothing and shares the current chunk
+pub(crate) fn ob_by_value_allocated<A, S>(k: usize, hint: usize)
+where
+    A: crate::BaseAllocator<S::GuaranteedAllocated> + Default,
+    S: BumpAllocatorSettings,
+{
+    let mut a = Arena::<A, S>::build(k, hint);
+    a.havoc();
+    let ci = a.cur;
+    let before = a.snaps();
+    let calls = unsafe { ALLOC_CALLS };
+    {
+        let scope: &mut BumpScope<'_, A, S> = unsafe { crate::polyfill::transmute_mut(&mut a.bump) };
+        let owned = scope.try_by_value();
+        kani::assert(owned.is_ok(), "C07.by_value.allocated_arena_succeeds");
+        let owned = owned.unwrap();
+        kani::assert(owned.raw.chunk.get().header().as_ptr() as usize == a.geo(ci).header, "C05.by_value.shares_the_current_chunk");
+    }
+    kani::assert(unsafe { ALLOC_CALLS } == calls && a.cur_index() == ci && a.snaps()[ci].pos == before[ci].pos, "C05.by_value.allocated_arena_unchanged");
+    kani::assert(a.wf(), "C10.by_value.wf");
+    kani::cover!(true, "by-value-on-allocated");
 }
 
 /// `BumpClaimGuard` (C14): new = claim, drop = reclaim, deref gives the claimant.
@@ -388,6 +457,12 @@ where
         let mut guard = scope.claim();
         kani::assert(scope.raw.is_claimed(), "C14.guard.original_claimed_while_alive");
         kani::assert(scope.raw.alloc::<AllocError>(Layout::new::<u64>()).is_err(), "C14.guard.original_fails_while_alive");
+        // ... every other request as well, for EVERY amount (0 included)
+        let add: usize = kani::any();
+        kani::assert(scope.raw.reserve::<AllocError>(add).is_err(), "C14.guard.original_reserve_fails_while_alive");
+        kani::assert(scope.raw.make_allocated::<AllocError>().is_err(), "C14.guard.original_make_allocated_fails_while_alive");
+        kani::assert(scope.raw.prepare_slice_allocation::<AllocError, u16>(kani::any()).is_err(), "C14.guard.original_prepare_fails_while_alive");
+        kani::assert(scope.raw.alloc_slice::<AllocError, u8>(1).is_err(), "C14.guard.original_alloc_slice_fails_while_alive");
         did = workload_n(&guard.raw, 24, 1);
         // a scope opened through the guard is fully undone
         let p0 = guard.raw.chunk.get().pos().as_ptr() as usize;
@@ -502,6 +577,9 @@ inst!(overflow_reserve_dn8, unwind 4, ob_overflow_and_reserve, LogAlloc, SDn8, 2
 inst!(raw_round_trip_up1, unwind 4, ob_raw_round_trip, LogAlloc, SUp1, 2, 64);
 
 type SUp16 = St<16, true, true, true, true>;
+type SDn16 = St<16, false, true, true, true>;
+type SUp8Un = St<8, true, false, true, true>;
+type SDn16Un = St<16, false, false, true, true>;
 type SDn8Un = St<8, false, false, true, true>;
 
 #[kani::proof]
@@ -515,7 +593,47 @@ pub(crate) fn with_settings_dn1_to8() {
     ob_with_settings_allocated::<LogAlloc, SDn1, SDn8>(2, 64);
 }
 #[kani::proof]
-#[kani::unwind(3)]
+#[kani::unwind(4)]
+pub(crate) fn by_value_unallocated_up1() {
+    ob_by_value_unallocated::<SUp1Un>(true);
+}
+#[kani::proof]
+#[kani::unwind(4)]
+pub(crate) fn try_by_value_unallocated_dn4() {
+    ob_by_value_unallocated::<SDn4Un>(false);
+}
+#[kani::proof]
+#[kani::unwind(4)]
+pub(crate) fn by_value_allocated_dn8() {
+    ob_by_value_allocated::<LogAlloc, SDn8>(2, 64);
+}
+#[kani::proof]
+#[kani::unwind(4)]
+pub(crate) fn with_settings_scope_up1_to8() {
+    ob_with_settings_allocated_w::<LogAlloc, SUp1, SUp8>(1, 64, Some(|b| b.ensure_satisfies_settings_for_borrow_mut::<SUp8>()), |b| b.ensure_scope_satisfies_settings::<SUp8>());
+}
+#[kani::proof]
+#[kani::unwind(4)]
+pub(crate) fn with_settings_scope_dn1_to16() {
+    ob_with_settings_allocated_w::<LogAlloc, SDn1, SDn16>(2, 64, Some(|b| b.ensure_satisfies_settings_for_borrow_mut::<SDn16>()), |b| b.ensure_scope_satisfies_settings::<SDn16>());
+}
+#[kani::proof]
+#[kani::unwind(4)]
+pub(crate) fn with_settings_borrow_mut_dn1_to8() {
+    ob_with_settings_allocated_w::<LogAlloc, SDn1, SDn8>(1, 64, None, |b| b.ensure_satisfies_settings_for_borrow_mut::<SDn8>());
+}
+#[kani::proof]
+#[kani::unwind(4)]
+pub(crate) fn with_settings_up1_to8_not_guaranteed() {
+    ob_with_settings_allocated_w::<LogAlloc, SUp1, SUp8Un>(1, 64, None, |b| b.ensure_satisfies_settings::<SUp8Un>());
+}
+#[kani::proof]
+#[kani::unwind(4)]
+pub(crate) fn with_settings_dn1_to16_not_guaranteed() {
+    ob_with_settings_allocated_w::<LogAlloc, SDn1, SDn16Un>(2, 64, None, |b| b.ensure_satisfies_settings::<SDn16Un>());
+}
+#[kani::proof]
+#[kani::unwind(4)]
 pub(crate) fn with_settings_unallocated_stays() {
     ob_with_settings_unallocated::<SDn4Un, SDn8Un>(true);
 }
